@@ -202,6 +202,10 @@ def check_grant(ctx, tag, esz, grantable):
             if grants:
                 ctx.require(q, z3.Or(num == 0, not_straddling(base, src, NB)),
                             "access is granted only to a non-null range of num whole elements that does not straddle the sandbox boundary or wrap")
+                g = grants[0]
+                bvx = lambda v: v if not isinstance(v, int) else BV(v, 64)
+                ctx.require(q, z3.And(z3.BoolVal(len(grants) == 1), bvx(g[1]) == src, bvx(g[2]) == num, bvx(g[3]) == esz),
+                            "the backend is asked to grant exactly the extent that was checked: the same buffer, num elements of sizeof(T)")
             if ev:
                 ln = ev[0][4] if not isinstance(ev[0][4], int) else BV(ev[0][4], 64)
                 ctx.require(q, z3.And(len(ev) == 1, ev[0][3] == src, Z(ln) == NB, ev[0][2] == q.ret, inside(base, q.ret, NB), not_straddling(base, src, NB)),
@@ -228,6 +232,10 @@ def check_deny(ctx, tag, esz, grantable):
             if denies:
                 ctx.require(q, z3.Or(num == 0, inside(base, p, NB)),
                             "a buffer is handed out of the sandbox with a count only when that many whole elements lie inside it")
+                d = denies[0]
+                bvx = lambda v: v if not isinstance(v, int) else BV(v, 64)
+                ctx.require(q, z3.And(z3.BoolVal(len(denies) == 1), bvx(d[1]) == p, bvx(d[2]) == num, bvx(d[3]) == esz),
+                            "the backend is asked to take back exactly the extent that was checked")
             if ev:
                 ln = ev[0][4] if not isinstance(ev[0][4], int) else BV(ev[0][4], 64)
                 allocs = [e for e in q.events if e[0] == "alloc"]
